@@ -53,7 +53,7 @@ COVERAGE_TARGETS = [
     'slotSet:inst:precedence:ok', 'slotSet:cls:boundsList:ok', 'slotSet:cls:objects:ok', 'slotSet:cls:constant:ok',
     'slotMut:inst:objectsAppend:ok', 'slotMut:inst:namesInsert:ok', 'slotMut:inst:boundsSetHi:ok', 'slotMut:inst:boundsSetHi:TypeError',
     'slotMut:cls:objectsAppend:ok', 'slotMut:cls:namesInsert:ok', 'slotMut:cls:boundsSetHi:ok', 'slotSet:inst:objects:AttributeError',
-    'leaky-ctor-kwarg', 'skipped:no-instance', 'mkInst:pending-ref:ok', 'sharedFail:ok',
+    'leaky-ctor-kwarg', 'skipped:no-instance', 'mkInst:pending-ref:ok', 'sharedFail:ok', 'decl:tagged-parameter-subclass', 'decl:refs:pi=0',
 ]
 
 ERRS = (ValueError, TypeError, AttributeError)
@@ -77,12 +77,38 @@ def _pending_ref():
     return param.bind(_skip, _SRC[0]().param.ready)
 
 
+_TAGGED = []
+
+
+def _tagged_class():
+    """a Parameter subclass with a list-valued slot that its __getstate__ blanks (as Path does with search_paths)"""
+    import param
+    if not _TAGGED:
+        class Tagged(param.Parameter):
+            __slots__ = ['tags']
+            _slot_defaults = dict(param.Parameter._slot_defaults, tags=None)
+
+            def __init__(self, default=param.Undefined, *, tags=param.Undefined, **kw):
+                super().__init__(default=default, **kw)
+                self.tags = tags
+
+            def __getstate__(self):
+                state = super().__getstate__()
+                if 'tags' in state:
+                    state['tags'] = []          # "don't want to pickle the tags"
+                return state
+        _TAGGED.append(Tagged)
+    return _TAGGED[0]
+
+
 def _mk_param(param, d):
     kw = {'instantiate': d['inst'], 'constant': d['const'], 'per_instance': d['pi']}
     if d.get('refs'):
         kw['allow_refs'] = True
     default = list(d['default']) if isinstance(d['default'], list) else d['default']
     if d['kind'] == 'plain':
+        if d.get('tags') is not None:
+            return _tagged_class()(default=default, tags=list(d['tags']), **kw)
         return param.Parameter(default=default, **kw)
     if d['kind'] == 'number':
         if d['btup'] is not None:
@@ -143,6 +169,10 @@ class _World:
             ms.append(['names', {'c': self.cid(names), 'v': list(names.values())}])
             objs = p._objects
             ms.append(['objects', {'c': self.cid(objs), 'v': list(objs)}])
+        if _TAGGED and isinstance(p, _TAGGED[0]):
+            if not isinstance(p.tags, list):
+                raise RuntimeError(f'tags outside the modelled shape: {p.tags!r}')
+            ms.append(['tags', {'c': self.cid(p.tags), 'v': list(p.tags)}])
         return {'kind': kind, 'owner': self.owner(p.owner), 'default': self.val(p.default), 'inst': bool(p.instantiate),
                 'const': bool(p.constant), 'pi': bool(p.per_instance), 'cos': bool(getattr(p, 'check_on_set', False)),
                 'refs': bool(p.allow_refs),
@@ -334,9 +364,9 @@ def compare(impl, model):
 
 # ------------------------------------------------------------------ generation
 
-def D(name, kind, default, inst=False, const=False, pi=True, cos=False, btup=None, blist=None, objects=None, refs=False):
+def D(name, kind, default, inst=False, const=False, pi=True, cos=False, btup=None, blist=None, objects=None, refs=False, tags=None):
     return {'name': name, 'kind': kind, 'default': default, 'inst': inst, 'const': const, 'pi': pi, 'cos': cos,
-            'btup': btup, 'blist': blist, 'objects': objects, 'refs': refs}
+            'btup': btup, 'blist': blist, 'objects': objects, 'refs': refs, 'tags': tags}
 
 
 SHARED_FAIL = {'op': 'sharedFail'}
@@ -416,6 +446,12 @@ def directed():
     yield [mkClass([], [D(0, 'plain', [1, 2], inst=True, refs=True), D(1, 'plain', [3], inst=True, refs=True, const=True), D(2, 'plain', 4, refs=True)]),
            mkInst(0, [(0, 'pending')]), mkInst(0), mkInst(0, [(0, 'pending'), (1, 'pending'), (2, 'pending')]), mutV(I(0), 0, 9), mutV(I(2), 1, 8),
            setV(C(0), 0, [5]), mkInst(0, [(0, [6]), (1, 'pending')]), mutV(I(3), 1, 7), setV(C(0), 2, 5)]
+    # a Parameter subclass whose __getstate__ blanks a slot: per-instance and subclass copies still hold the class's value
+    yield [mkClass([], [D(0, 'plain', 5, tags=[1, 2]), D(1, 'plain', [3], inst=True, tags=[4])]), mkClass([0], []), mkInst(0), mkInst(1),
+           acc(0, 0), setV(I(1), 1, 7), setV(C(1), 0, 6), acc(1, 0), setV(C(0), 0, 8), mkInst(1), acc(2, 1)]
+    # class-level writes on a subclass stay on the subclass: in-place changes of its Parameter's containers do not reach the parent
+    yield BASE + [setV(C(1), 1, 2), smut(C(1), 1, objectsAppend=9), smut(C(1), 1, namesInsert=9), smut(C(0), 1, objectsAppend=8),
+                  setV(C(1), 0, 3), smut(C(1), 0, boundsSetHi=50), setV(C(0), 0, 40), setV(C(1), 0, 40), mkInst(1), mkInst(0), acc(0, 1), acc(1, 0)]
     # a shared_parameters block left by an exception leaves no sharing behind
     yield BASE + [SHARED_FAIL, mkInst(0), mkInst(0), mkInst(1), mutV(I(0), 2, 9), setV(C(0), 2, [8]), mkInst(0), SHARED_FAIL, mkInst(1), mutV(I(3), 2, 1)]
     # defaults that are None at construction time and filled in on the class later
@@ -449,8 +485,9 @@ def _rand_decl(rng, name):
             return D(name, kind, None, inst=rng.random() < 0.5, const=rng.random() < 0.4, pi=pi)
         if rng.random() < 0.65:
             return D(name, kind, [rng.randint(1, 9) for _ in range(rng.randint(0, 2))], inst=rng.random() < 0.5, const=const, pi=pi,
-                     refs=pi and rng.random() < 0.25)
-        return D(name, kind, rng.randint(0, 9), inst=rng.random() < 0.3, const=const, pi=pi)
+                     refs=rng.random() < 0.25, tags=[rng.randint(1, 9)] if rng.random() < 0.2 else None)
+        return D(name, kind, rng.randint(0, 9), inst=rng.random() < 0.3, const=const, pi=pi,
+                 tags=[rng.randint(1, 9), rng.randint(1, 9)] if rng.random() < 0.25 else None)
     if kind == 'number':
         r = rng.random()
         b = [0, rng.randint(5, 12)]
@@ -605,6 +642,10 @@ def tags(case, impl):
             if op['op'] == 'mkClass':
                 for d in op['decls']:
                     t.append(f'decl:{d["kind"]}:inst={int(d["inst"])}:const={int(d["const"])}:pi={int(d["pi"])}')
+                    if d.get('tags') is not None:
+                        t.append('decl:tagged-parameter-subclass')
+                    if d.get('refs') and not d['pi']:
+                        t.append('decl:refs:pi=0')
                     if d['default'] is None:
                         t += [f'decl:plain:none-default:{k}' for k in ('inst', 'const') if d[k]]
     return t
